@@ -1136,3 +1136,78 @@ def rule_workermisc(text):
             apps.append(_app(rname, text, mm.start(), mm.end(), new, why))
             text = text[:mm.start()] + new + text[mm.end():]
     return text, apps
+
+
+def rule_cachemisc(text):
+    """cache unit one-offs"""
+    apps = []
+    table = [
+        (r"std\s*::\s*ptr\s*::\s*eq\s*\(\s*(\w+)\s*\.\s*as_ptr\s*\(\s*\)\s*,\s*Arc\s*::\s*as_ptr\s*\(\s*(\w+)\s*\)\s*\)", r"weak_is(\1, \2)", "R-genid",
+         "shim: pointer identity of a Weak and an Arc = same generation id"),
+        (r"(\w+)\s*\.\s*map\s*\(\s*Arc\s*::\s*downgrade\s*\)", r"downgrade_opt(\1)", "R-genid", "shim: Option<&Arc>::map(Arc::downgrade) keeps the generation id"),
+        (r"std\s*::\s*mem\s*::\s*size_of\s*::\s*<\s*CacheEntry\s*>\s*\(\s*\)", "cache_entry_overhead()", "R-sizeof", "shim: the fixed per-entry overhead, an unknown constant <= 1024"),
+        (r"(\w+)\s*\.\s*key\s*!=\s*key\b", r"!key_eq(&\1.key, &key)", "R-seq", "shim: byte-wise comparison of the stored key with the probe"),
+        (r"(\w+)\s*\.\s*key\s*==\s*key\b", r"key_eq(&\1.key, &key)", "R-seq", "shim: byte-wise comparison of the stored key with the probe"),
+        (r"for\s+(\w+)\s+in\s+(\w+)\s*\.\s*iter_mut\s*\(\s*\)\s*\{", r"let mut \1_i_: usize = 0; while \1_i_ < \2.len() { let \1 = &mut \2[\1_i_]; \1_i_ = \1_i_ + 1;", "R-foriter",
+         "definition of iterating a Vec by mutable reference as an index loop"),
+        (r"for\s+(\w+)\s+in\s+(\w+)\s*\.\s*iter\s*\(\s*\)\s*\{", r"let mut \1_i_: usize = 0; while \1_i_ < \2.len() { let \1 = &\2[\1_i_]; \1_i_ = \1_i_ + 1;", "R-foriter",
+         "definition of iterating a Vec by reference as an index loop (Verus for-loops have no `continue`)"),
+        (r"for\s+_\s+in\s+0\s*\.\.\s*(\w+)\s*\{", r"let mut pass_i_: usize = 0; while pass_i_ < \1 { pass_i_ = pass_i_ + 1;", "R-foriter", "definition of a counted loop (Verus for-loops have no `break`)"),
+        (r"(\w+)\s*\.\s*wrapping_add\s*\(\s*1\s*\)", r"wrapping_inc(\1)", "R-wrap", "definition of usize::wrapping_add(1)"),
+        (r"self\s*\.\s*stats\s*\.\s*as_ref\s*\(\s*\)", "&self.stats", "R-handle", "Arc<Statistics>::as_ref() is a reference to the statistics"),
+    ]
+    for pat, rep, rname, why in table:
+        while True:
+            mm = re.search(pat, text)
+            if not mm:
+                break
+            new = mm.expand(rep)
+            apps.append(_app(rname, text, mm.start(), mm.end(), new, why))
+            text = text[:mm.start()] + new + text[mm.end():]
+    return text, apps
+
+
+def rule_oisnoneor(text):
+    return _option_closure_rule(
+        text, "is_none_or", "R-oissome",
+        lambda e, p, b: "(match %s { Some(%s) => %s, None => true })" % (e, p, b),
+        "definition of Option::is_none_or")
+
+
+def rule_sig_cache(text):
+    apps = []
+    while True:
+        mm = re.search(r"Weak\s*<\s*Record\s*>", text)
+        if not mm:
+            break
+        apps.append(_app("R-handle", text, mm.start(), mm.end(), "WeakRec", "opaque handle for Weak<Record> (generation id)"))
+        text = text[:mm.start()] + "WeakRec" + text[mm.end():]
+    return text, apps
+
+
+def rule_position(text):
+    """`V.iter().position(|X| BODY)` -> a first-match index loop (BODY verbatim)"""
+    apps = []
+    k = 0
+    while True:
+        m = mask(text)
+        hit = None
+        for dot, op, cl in _method_calls(text, m, "position"):
+            pre = m[:dot].rstrip()
+            mm = re.search(r"(\w+)\s*\.\s*iter\s*\(\s*\)$", pre)
+            if not mm:
+                continue
+            parts = _closure_parts(text[op + 1:cl])
+            if not parts or not re.fullmatch(r"\w+", parts[0]):
+                continue
+            v, x, body = mm.group(1), parts[0], parts[1]
+            k += 1
+            new = ("{ let mut pos_: Option<usize> = None; let mut pi_: usize = 0; while pi_ < %s.len() && pos_.is_none() { let %s = &%s[pi_]; if %s { pos_ = Some(pi_); } pi_ = pi_ + 1; } pos_ }"
+                   % (v, x, v, body))
+            hit = (mm.start(1), cl + 1, new)
+            break
+        if not hit:
+            return text, apps
+        a, b, new = hit
+        apps.append(_app("R-position", text, a, b, new, "definition of Iterator::position over a Vec: the first index whose element satisfies the predicate"))
+        text = text[:a] + new + text[b:]
